@@ -8,47 +8,11 @@ from .common import Violation
 from .trace import Trace
 from .wfgen import WModel
 from .world import World
-from .world_scenario import WorldScenario
+from .world_scenario import SUBMIT_EXE, WorldScenario
 
-SUBMIT_EXE = {"slurm": "sbatch", "sge": "qsub", "lsf": "bsub", "local": "enqueue_task"}
 
 
 class FaultEnumScenario(WorldScenario):
-    # ------------------------------------------------------------------ classification of a fault point
-    @staticmethod
-    def classify(fault, seams, backend):
-        """Interruption class used in violation signatures (stable under minimisation)."""
-        if "cmd_faults" in fault:
-            exe, k, kind = fault["cmd_faults"][0]
-            if exe == "sock":
-                return f"reply_{kind}:{fault.get('what', 'query')}"
-            what = "submit" if exe == SUBMIT_EXE[backend] else "query"
-            return f"cmd_fail:{kind}:{what}"
-        if "intr_at" in fault:
-            k = fault["intr_at"]
-            kind = seams[k - 1][0] if k - 1 < len(seams) else "?"
-            return "ctrl_c_in_save" if seams[k - 1][2] else "ctrl_c"
-        if "io_fault" in fault:
-            k = fault["io_fault"][0]
-            return "io_error_in_save" if seams[k - 1][2] else "io_error"
-        if "kill_at" in fault:
-            k, when = fault["kill_at"]
-            kind, detail, is_state = seams[k - 1]
-            if when == "after":
-                if kind == "sock:send":
-                    if is_state:
-                        return "kill:K2"
-                    return "kill:K3" if "enqueue_task" in detail else "kill:after_query"
-                return "kill:K3" if kind == "cmd:" + SUBMIT_EXE[backend] else "kill:after_query"
-            if ".journal" in detail and kind in ("fs:open_w", "fs:write"):
-                # between the scheduler's acceptance and the durable record of it: like K3, the id of
-                # that one job cannot be known to any later invocation
-                return "kill:K3"
-            if is_state:
-                return "kill:K2"
-            return "kill:K1"
-        return "none"
-
     def _seam_list(self, w):
         """(kind, detail, is_state_file) of every seam event recorded for the last invocation."""
         out = []
@@ -67,9 +31,11 @@ class FaultEnumScenario(WorldScenario):
             name, jid, deps = res.accepted[-1]
             w.k3_lost.add(name)
             w.orphans = getattr(w, "orphans", set()) | {jid}
-            prev = [a for a in w.history_accepted if a[0] == name and a[1] != jid]
-            if prev:
-                w.latest[name] = prev[-1][1]
+            latest_before, gen_before = w.before_fault
+            if name in latest_before:
+                w.latest[name] = latest_before[name]
+                if w.local is not None and name in gen_before:
+                    w.latest_gen[name] = gen_before[name]
             else:
                 w.latest.pop(name, None)
         # (d) a hash is recorded only for targets whose submission was accepted
@@ -148,7 +114,6 @@ class FaultEnumScenario(WorldScenario):
         """Execute an op list in a fresh world; returns (world, violation)."""
         model = WModel.from_json(self.knobs["model"])
         w = World(trace, self.knobs, self.props, model)
-        w.history_accepted = []
         with w:
             self.setup(w)
             for op in ops:
@@ -164,20 +129,17 @@ class FaultEnumScenario(WorldScenario):
 
     def _gwf(self, w, op):
         fault = op.get("fault")
-        if not fault:
-            res = super()._gwf(w, op)
-            if res is not None and hasattr(res, "accepted"):
-                w.history_accepted.extend(res.accepted)
-            return res
+        if not fault or "fault_class" not in op:
+            return super()._gwf(w, op)  # fault-free, or a faulted invocation of the pre-history (generic handling)
         argv = op["argv"]
         patterns = [a for a in argv[1:] if not a.startswith("-")]
         pre_hash = set((w.read_hashes() or {}).keys()) if w.hashing else set()
         live_before = {n: w.latest[n] for n in w.model.targets if w.observable(n) in ("submitted", "running")}
         if live_before:
             w.probe("faulted_runs_with_jobs_in_flight")
+        w.before_fault = (dict(w.latest), dict(w.latest_gen))
         res = w.gwf(argv, "root", kill_at=fault.get("kill_at"), intr_at=fault.get("intr_at"),
                     io_fault=fault.get("io_fault"), cmd_faults=fault.get("cmd_faults", ()))
-        w.history_accepted.extend(res.accepted)
         if res.accepted:
             w.probe("faulted_runs_with_accepted_jobs")
         dups = sorted(a[0] for a in res.accepted if a[0] in live_before)
@@ -232,7 +194,6 @@ class FaultEnumScenario(WorldScenario):
         model0 = WModel.from_json(self.knobs["model"])
         t0 = Trace(keep=True)
         w0 = World(t0, self.knobs, self.props, model0)
-        w0.history_accepted = []
         pre = []
         n_points = 0
         with w0:
@@ -248,6 +209,17 @@ class FaultEnumScenario(WorldScenario):
                 self.apply(w0, op)
                 if w0.pending_violation:
                     break
+            # a streak of killed runs right before the enumerated one: what those accepted lives only in the
+            # journal, and every interruption point of the next run is then tried on top of it
+            if not w0.pending_violation and r.chance(self.profile.get("p_kill_streak", 0.0)):
+                for _ in range(r.pick([1, 2, 2, 3])):
+                    k = 1 + r.randrange(max(3, w0.last_run_seams + 2))
+                    op = {"op": "gwf", "argv": ["run"] + (self._patterns(w0, r) if r.chance(0.3) else []), "cwd": "root",
+                          "fault": {"kill_at": [k, r.pick(["before", "before", "after"])]}}
+                    pre.append(op)
+                    self.apply(w0, op)
+                    if w0.pending_violation:
+                        break
             self.world = w0
             if w0.pending_violation:
                 self.ops = pre
